@@ -126,7 +126,7 @@ var vmPool = sync.Pool{New: func() interface{} { return otto.New() }}
 const snapshotJS = `(function(g){var n=Object.getOwnPropertyNames(g).sort(),s=[];for(var i=0;i<n.length;i++){var d=Object.getOwnPropertyDescriptor(g,n[i]);s.push(n[i]+':'+typeof d.value+':'+(typeof d.value=='object'||typeof d.value=='function'?'':String(d.value)))}return s.join('|')})(this)`
 
 // rejectVerdict checks the rejected-source obligations: positions in bounds, no side effect.
-func rejectVerdict(src string, err error) string {
+func rejectVerdict(src string, err error, withVM bool) string {
 	var bad []string
 	if el, ok := err.(*parser.ErrorList); ok {
 		lines := 1
@@ -149,27 +149,33 @@ func rejectVerdict(src string, err error) string {
 	} else {
 		bad = append(bad, "error-type")
 	}
-	vm := vmPool.Get().(*otto.Otto)
-	reuse := true
-	func() {
-		defer func() {
-			if r := recover(); r != nil {
-				bad = append(bad, "run-panic")
+	reuse := false
+	var vm *otto.Otto
+	if withVM {
+		vm = vmPool.Get().(*otto.Otto)
+		reuse = true
+	}
+	if withVM {
+		func() {
+			defer func() {
+				if r := recover(); r != nil {
+					bad = append(bad, "run-panic")
+					reuse = false
+				}
+			}()
+			before, _ := vm.Run(snapshotJS)
+			_, rerr := vm.Run(src)
+			after, _ := vm.Run(snapshotJS)
+			if rerr == nil {
+				bad = append(bad, "run-accepted")
+				reuse = false
+			}
+			if before.String() != after.String() {
+				bad = append(bad, "side-effect")
 				reuse = false
 			}
 		}()
-		before, _ := vm.Run(snapshotJS)
-		_, rerr := vm.Run(src)
-		after, _ := vm.Run(snapshotJS)
-		if rerr == nil {
-			bad = append(bad, "run-accepted")
-			reuse = false
-		}
-		if before.String() != after.String() {
-			bad = append(bad, "side-effect")
-			reuse = false
-		}
-	}()
+	}
 	if reuse {
 		vmPool.Put(vm)
 	}
@@ -202,7 +208,7 @@ func implC04(line string) string {
 		if o.err == nil {
 			return "accept"
 		}
-		return rejectVerdict(src, o.err)
+		return rejectVerdict(src, o.err, f[2] == "v")
 	case "early":
 		return implEarly(f)
 	case "earlyfn":
@@ -291,7 +297,14 @@ func addSource(c *h.Ctx, src, origin string) {
 	case o.panicV != "":
 		c.Add("junk x"+astx.Hex(src)+" -", origin, "outcome:panic")
 	case o.err != nil:
-		c.Add("junk x"+astx.Hex(src)+" -", origin, "outcome:reject")
+		// the runtime side of the obligation (Run reports an error, global object unchanged) costs a VM run: every rejected
+		// source in the quick tier, every fourth in the thorough tier (the check must stay inside the 20 s per-request limit
+		// of the shared harness on a loaded machine)
+		flag := "v"
+		if c.Thorough() && len(c.Lines)%4 != 0 {
+			flag = "-"
+		}
+		c.Add("junk x"+astx.Hex(src)+" "+flag, origin, "outcome:reject")
 	default:
 		c.Add("tree x"+astx.Hex(src)+" "+astx.RawDump(o.prog), origin, "outcome:accept")
 	}
